@@ -1,6 +1,6 @@
 (* Model/SerCheckpoint.v — the record shapes compose registers for checkpoints
-   (compose/checkpoint.go: checkpoint; compose/dag.go: dagChannel, dependencyState,
-   init(); compose/pregel.go: pregelChannel; compose/graph_manager.go: channel).
+   (compose/checkpoint.go: checkpoint, nilChunk, init(); compose/dag.go: dagChannel,
+   dependencyState, init(); compose/pregel.go: pregelChannel; compose/graph_manager.go: channel).
    Unexported fields (dagChannel.zeroValue, emptyStream) are skipped by the encoder and
    are not part of the serialised value. *)
 From Coq Require Import List NArith String.
@@ -11,6 +11,7 @@ Local Open Scope string_scope.
 Definition S_CHECKPOINT : N := 9000.
 Definition S_DAG : N := 9001.
 Definition S_PREGEL : N := 9002.
+Definition S_NILCHUNK : N := 9003.   (* compose/checkpoint.go: nilChunk, a struct without fields (fix 5464095) *)
 Definition I_CHANNEL : N := 9000.
 Definition N_DEPSTATE : N := 9000.
 
@@ -29,10 +30,12 @@ Definition ckpt_env : senv :=
        ("Values", TMap t_string TAny);
        ("DataPredecessors", TMap t_string (TBase BBool));
        ("Skipped", TBase BBool) ]);
-    (S_PREGEL, [ ("Values", TMap t_string TAny) ]) ].
+    (S_PREGEL, [ ("Values", TMap t_string TAny) ]);
+    (S_NILCHUNK, []) ].
 
 Definition ckpt_registry : registry :=
-  [ ("_eino_channel", TIface I_CHANNEL);
+  [ ("_eino_nil_chunk", TStruct S_NILCHUNK);
+    ("_eino_channel", TIface I_CHANNEL);
     ("_eino_checkpoint", TStruct S_CHECKPOINT);
     ("_eino_dag_channel", TStruct S_DAG);
     ("_eino_pregel_channel", TStruct S_PREGEL);
